@@ -712,9 +712,15 @@ Proof.
   destruct F; [|exact I].
   inversion Hk; subst; try exact I. apply IH. apply mwf_set; assumption.
 Qed.
+Lemma forallb_is_arr_veq : forall l l', Forall2 veq l l' -> forallb is_arr l = forallb is_arr l'.
+Proof.
+  induction 1 as [|a b l l' Hab _ IH]; [reflexivity|]. cbn [forallb]. rewrite IH. f_equal.
+  inversion Hab; reflexivity.
+Qed.
 Lemma from_items_veq : forall x x', veq x x' -> oeqL (from_items x) (from_items x').
 Proof.
   intros x x' H. inversion H as [| | | | |l l' F|]; subst; cbn [from_items]; try exact I.
+  rewrite (forallb_is_arr_veq _ _ F). destruct (forallb is_arr l'); [|exact I].
   eapply orelO_bind; [apply from_items_loop_veq; [exact F|apply mwf_nil]|].
   intros m m' Hm. apply mwf_veq. exact Hm.
 Qed.
